@@ -576,7 +576,7 @@ func (e *engine) connCase(ctx context.Context, n int, gen string, hDials bool, p
 	// a refusal is "no link until the wait is over" (the listener keeps waiting for another
 	// handshake); only an expected link needs the long wait, and that ends with the event
 	wait := 1500 * time.Millisecond
-	if valid && (pin != "wrong") {
+	if valid && (pin != "wrong") && !strings.HasPrefix(pin, "odd:") {
 		wait = 10 * time.Second
 	}
 	actx, cancel := context.WithTimeout(ctx, wait)
@@ -595,6 +595,14 @@ func (e *engine) connCase(ctx context.Context, n int, gen string, hDials bool, p
 		expect = claimed
 	case "wrong":
 		expect = other.id
+	default:
+		if strings.HasPrefix(pin, "odd:") { // wave 4 (w4.go): keyless / alias form of the answering key's id
+			for _, o := range e.oddIDs(attacker.pub) {
+				if o.name == pin[4:] {
+					expect = o.id
+				}
+			}
+		}
 	}
 	// the adversary frames packets on its end of the stream the same way and speaks quic-go directly
 	apc := rwc.NewPacketConn(actx, ac, memAddr("ca-"+strconv.Itoa(n)), memAddr("ch-"+strconv.Itoa(n)), 65000, 10)
@@ -638,6 +646,9 @@ func (e *engine) connCase(ctx context.Context, n int, gen string, hDials bool, p
 			br = "conn.established"
 		}
 		e.rep.Compare(op+" #"+g, model, res.String(), br, "tls.hist:"+g, mon)
+		if strings.HasPrefix(pin, "odd:") {
+			e.rep.Branches["conn.expect-odd"]++
+		}
 	}
 }
 
@@ -655,6 +666,9 @@ func (e *engine) connCases(ctx context.Context) {
 		for _, pin := range []string{"any", "right", "wrong"} {
 			cs = append(cs, c{"own-identity", hd, pin})
 		}
+		// wave 4: the required id is keyless / an alias of the answering key's id
+		cs = append(cs, c{"own-identity", hd, []string{"odd:sha256-of-answering-key", "odd:identity-rsa-typed-same-bytes"}[e.rng.Intn(2)]},
+			c{"own-identity", hd, []string{"odd:alias-fields-reordered", "odd:identity-unknown-key-type"}[e.rng.Intn(2)]})
 	}
 	evals := make([]func(), len(cs))
 	kss := make([][]*idKey, len(cs))
